@@ -62,7 +62,7 @@ out = {}
 mp = os.path.join(V, "silent", "MATRIX.json")
 if os.path.exists(mp):
     out = json.load(open(mp))
-with ThreadPoolExecutor(5) as ex:
+with ThreadPoolExecutor(int(os.environ.get("JOBS", "5"))) as ex:
     for sid, msg, res in ex.map(one, ns):
         print(sid, msg, flush=True)
         if res:
